@@ -21,18 +21,47 @@ def run(tier, rep):
     for r in res3:
         r['dense_pass'] = True
     acc += [r for r in res3 if 'crashed' in r or r['port_err'] == 0]
-    nb = len([r for r in acc if 'crashed' not in r and r['config']['cat'] == 'bkg' and not r.get('dense_pass')])
+    # squeezed default streams: every unforced deviate mapped into a sub-interval of (0,1) - loops that a fair stream leaves
+    # after a few turns (vacancy cascades, chains of conversions) keep turning when every answer falls on the same side.
+    # Rejection loops whose acceptance region the squeeze excludes turn for ever in the reference as well: a horizon is a
+    # violation only when the model terminates on the same deviates with every decision margin clear (plumbing API, where the
+    # table margin is calibrated); both-sided horizons are counted (rejection_loops_unbounded_under_squeeze)
+    squeezes = ['0.5,1', '0,0.5'] if tier == 'quick' else ['0.5,1', '0,0.5', '0,0.34', '0.33,0.67', '0.66,1', '0.9,1', '0,0.1']
+    sq_cfg = ['bkg %s' % n for n in dxlib.bkg_all()] + ([] if tier == 'quick' else c02.grid())
+    both = 0
+    for sq in squeezes:
+        rs, ds = dxlib.run_dx('plain', sq_cfg, 'c04s', 'A', 'ref,inv', api='genbbsub', deadline=deadline, extra=['--squeeze', sq, '--horizon', '30000'])
+        for r in rs:
+            r['squeeze_pass'] = sq
+            r['api'] = 'genbbsub'
+            both += r.get('both_horizon', 0) if 'crashed' not in r else 0
+        acc += [r for r in rs if 'crashed' in r or r['port_err'] == 0]
+    # re-initialisation chains on the same working block (plumbing API, no reset in between): the second configuration's
+    # events must be as well-formed as those of a fresh block; background names after a double-beta session too
+    acc_cfg = [r['config'] for r in res if 'crashed' not in r and r['port_err'] == 0]
+    chain = c02.chain_cfgs(acc_cfg, wcfg, tier)
+    pres = ['dbd Nd150 0 20 -1 -1', 'dbd Mo100 0 4 -1 -1'] if tier != 'quick' else ['dbd Nd150 0 20 -1 -1']
+    chain += ['bkg %s 0 0 -1 -1 PRE %s' % (n, p) for n in dxlib.bkg_all() for p in pres]
+    res4, d4 = dxlib.run_dx('plain', chain, 'c04c', 'A', 'ref,inv', api='genbbsub', deadline=deadline)
+    for r in res4:
+        r['chain_pass'] = True
+        r['api'] = 'genbbsub'
+    acc += [r for r in res4 if 'crashed' in r or r['port_err'] == 0]
+    rep.coverage['reinitialisation_chains'] = len(res4)
+    rep.coverage['squeezed_default_streams'] = squeezes
+    rep.coverage['rejection_loops_unbounded_under_squeeze_on_both_sides'] = both
+    nb = len([r for r in acc if 'crashed' not in r and r['config']['cat'] == 'bkg' and not r.get('dense_pass') and not r.get('squeeze_pass') and not r.get('chain_pass')])
     if nb < 69:
         rep.violation('bkg:count', 'only %d of the 69 published background names initialise' % nb)
     c01.aggregate(rep, acc, False, ('c04',), 'generator',
                   'every published background name and every accepted double-beta configuration (plus windows), driven through '
                   'decay0_generator::initialize/shoot; layers %s with the tail values 1e-12 and 1-1e-12 in the alphabet of every choice point; '
-                  'invariants of C04 on every execution; background names a second time with a 16/32-point interior grid on every draw; bounded work = every execution finishes within 1e5 deviates under the fair default stream '
+                  'invariants of C04 on every execution; background names a second time with a 16/32-point interior grid on every draw, and (with the double-beta grid in the thorough tier) under squeezed default streams (every unforced deviate mapped into a sub-interval of (0,1)); bounded work = every execution finishes within 1e5 deviates under the fair default stream '
                   '(thresholds from the reference model where it exists, from bisection on the port\'s draw-site signature otherwise)' % layers)
     rep.coverage['max_deviates_per_shot'] = max([r['max_draws'] for r in acc if 'crashed' not in r] + [0])
     rep.coverage['max_particles'] = max([r['max_np'] for r in acc if 'crashed' not in r] + [0])
     rep.coverage['max_kinetic_energy_MeV'] = max([r['max_kin'] or 0 for r in acc if 'crashed' not in r] + [0])
-    rep.assumptions += ['deviates are independent: the default stream is a counter hash (fair); adversarial constant sequences are outside the property',
+    rep.assumptions += ['deviates are independent: the default stream is a counter hash (fair), also squeezed into halves, thirds and tenths of (0,1); sequences under which the reference itself never terminates (a rejection loop that is never satisfied) are outside the property',
                         'kinetic energy bound 12 MeV; draw horizon 1e5 per shot']
 
 
